@@ -66,4 +66,17 @@ CHECKS["C09"] = {
           "Known findings D18 (index_online shifted in join(split(x))) and D21 (ties ordered by run index) are carved out. .tdms "
           "sources are outside the contracts.",
   "technique": "contract-based deductive verification: AST-generated VCs with loop invariants and ghost relations, z3 with cvc5 (strings) as second back end; bounded replay when a function leaves the accepted subset"}
+CHECKS["C17"] = {
+  "text": "Proof that Cache.__call__ computes as key the digest of the framed encoding of (positional arguments, sorted keyword "
+          "names and values, function name/doc/file) -- every payload preceded by a header with kind, for arrays dtype and shape, "
+          "and payload length -- and follows the cache protocol (hit: stored result, function not called; miss: one call with the "
+          "given arguments, result stored, FIFO eviction, keys list == dict keys); that H5ScalarEvent/ChildScalar hand out no writable "
+          "alias of their cached arrays for [i], [a:b], [:], __array__() (ownership decided on the view heap of the engine); that the "
+          "KDE wrapper ignore_nan_inf returns a fresh array and feeds the estimator exactly the finite pairs; that the file-hash "
+          "cache key covers (resolved path, st_mtime_ns, st_size, arguments).",
+  "note": "Trusted: A-HASH (md5 injective on update sequences), A-FRAME (length-prefixed framing is uniquely decodable), N-RAWBYTES, "
+          "A-MTIME, A-DET for the memoised functions, functools.lru_cache keys on all call arguments; the Cache scenario fixes the "
+          "argument structure (two arrays, an int, two keywords) and capacity 2. Not under contract: LazyContourList (deque with "
+          "maxlen), BasinProxyFeature ownership (same fix applied, covered by the D5 regression replay).",
+  "technique": "contract-based deductive verification: AST-generated VCs, structural obligations on the ghost hash stream and on the engine's view/alias heap, z3 for the value obligations"}
 NOT_APPLICABLE = {}
